@@ -303,3 +303,19 @@ func init() {
 		return tt.Res{Ok: true, S: bs(r), H: hl([][]int{bs(gogu.ReverseStr(r))})}
 	}
 }
+
+// sparsePass repeats a driver's linear recording into <out>.sp.lin.ndjson with most calls left unobserved
+// (tt.SparseSeed): stretches of calls without any query in between.
+func sparsePass(cfg Config, s *Summary, rec func(file string) (int, error)) error {
+	tt.SparseSeed = cfg.Seed*977 + 5
+	defer func() { tt.SparseSeed = 0 }()
+	f := cfg.Out + ".sp.lin.ndjson"
+	n, err := rec(f)
+	if err != nil {
+		return err
+	}
+	s.Files = append(s.Files, f)
+	s.Nodes += n
+	s.Extra["sparse_nodes"] = n
+	return nil
+}
